@@ -1,4 +1,240 @@
-import GcmpyModel.Model.Distributions
+import GcmpyModel.Lemmas.Distributions
+/-!
+# C19 — the four degree distributions compute the named laws
+
+Real-number model (definitions in `Lemmas/Distributions.lean`):
+
+* `expo a k   = (1 - exp(-a)) * exp(-a*k)`        (`exponential.py`)
+* `pois m k   = exp(-m) * m^k / k!`               (`poisson.py`)
+* `zterm α k  = 1 / k^α`,  `lterm α z k = z^k / k^α` : the terms of the two `while 1` loops of
+  `power_law.py` / `scale_free_cut_off.py`; `StopsAt term tol K` says the loop leaves at index `K`
+  (first `k ≥ 1` with `term k < tol`, that term included) and `partialSum term K` is what it returns.
+  All terms are non-negative, so the code's `abs(term)` is `term`.
+
+Proved here:
+1. `expo`, `pois` are non-negative and sum to exactly 1 over `k ≥ 0`.
+2. both loops terminate on the documented parameter ranges (`α > 0`, resp. `α ≥ 0 ∧ 0 ≤ z < 1`).
+3. the zeta loop's result `C` satisfies `0 < ζ(α) - C ≤ K·tol` for `α ≥ 2` (the constant proved is
+   `K * tol`, not the weaker `2 * K * tol`), the polylog loop's `0 < Li_α(z) - C ≤ tol·z/(1-z)`.
+4. consequently the code's `p(k) = k^{-α}/C` over-estimates the exact power law `k^{-α}/ζ(α)` by a
+   relative error of at most `K·tol`, and the cut-off law by at most `tol/(1-z)`; the code's values
+   sum to a number in `[1, 1 + K·tol]`, resp. `[1, 1 + tol/(1-z)]`.
+5. the executable rational loops of `Model/Distributions.lean` (integer exponent) satisfy `StopsAt`
+   and return `partialSum`.
+-/
+open Finset Filter Topology
+
 namespace Gcmpy.Distributions
-theorem placeholder_c19 : True := trivial
+
+/-! ## 1. exponential -/
+
+theorem expo_nonneg {a : ℝ} {k : ℕ} (ha : 0 < a) : 0 ≤ expo a k := by
+  unfold expo
+  have h : Real.exp (-a) < 1 := Real.exp_lt_one_iff.2 (by linarith)
+  have h1 : 0 ≤ 1 - Real.exp (-a) := by linarith
+  positivity
+
+theorem expo_hasSum_one {a : ℝ} (ha : 0 < a) : HasSum (fun k : ℕ => expo a k) 1 := by
+  have h0 : 0 ≤ Real.exp (-a) := (Real.exp_pos _).le
+  have h1 : Real.exp (-a) < 1 := Real.exp_lt_one_iff.2 (by linarith)
+  have h := (hasSum_geometric_of_lt_one h0 h1).mul_left (1 - Real.exp (-a))
+  rw [mul_inv_cancel₀ (by linarith)] at h
+  simpa only [expo_eq] using h
+
+/-! ## 2. poisson -/
+
+theorem pois_nonneg {m : ℝ} {k : ℕ} (hm : 0 < m) : 0 ≤ pois m k := by
+  unfold pois; positivity
+
+theorem pois_hasSum_one {m : ℝ} (_hm : 0 < m) : HasSum (fun k : ℕ => pois m k) 1 := by
+  have h := (NormedSpace.expSeries_div_hasSum_exp (𝔸 := ℝ) m).mul_left (Real.exp (-m))
+  rw [← Real.exp_eq_exp_ℝ, ← Real.exp_add, neg_add_cancel, Real.exp_zero] at h
+  have e : (fun k : ℕ => pois m k)
+      = fun k : ℕ => Real.exp (-m) * (m ^ k / (Nat.factorial k : ℝ)) := by
+    funext k
+    unfold pois
+    rw [mul_div_assoc]
+  rw [e]
+  exact h
+
+/-! ## 3. the two loops terminate -/
+
+theorem zeta_loop_terminates {α tol : ℝ} (hα : 0 < α) (htol : 0 < tol) :
+    ∃ K, StopsAt (zterm α) tol K :=
+  stopsAt_of_exists (exists_zterm_lt hα htol)
+
+theorem polylog_loop_terminates {α z tol : ℝ} (hα : 0 ≤ α) (hz0 : 0 ≤ z) (hz1 : z < 1)
+    (htol : 0 < tol) : ∃ K, StopsAt (lterm α z) tol K :=
+  stopsAt_of_exists (exists_lterm_lt hα hz0 hz1 htol)
+
+/-- for `α ≤ 0` the zeta loop never stops once `tol ≤ 1` (so the documented range matters) -/
+theorem zeta_loop_diverges {α tol : ℝ} (hα : α ≤ 0) (htol : tol ≤ 1) :
+    ¬ ∃ K, StopsAt (zterm α) tol K := by
+  rintro ⟨K, hK1, hlt, -⟩
+  have hK : (1 : ℝ) ≤ K := by exact_mod_cast hK1
+  have h1 : (K : ℝ) ^ α ≤ 1 := Real.rpow_le_one_of_one_le_of_nonpos hK hα
+  have hpos : (0 : ℝ) < (K : ℝ) ^ α := Real.rpow_pos_of_pos (by linarith) _
+  have : 1 ≤ zterm α K := by
+    unfold zterm
+    rw [le_div_iff₀ hpos]; linarith
+  linarith
+
+/-- the stopping index is unique: `StopsAt` determines the loop's result -/
+theorem stopsAt_unique {term : ℕ → ℝ} {tol : ℝ} {K K' : ℕ} (h : StopsAt term tol K)
+    (h' : StopsAt term tol K') : K = K' := h.unique h'
+
+/-! ## 4. truncation error of the zeta loop -/
+
+theorem zeta_tail_bound {α tol : ℝ} {K : ℕ} (hα : 2 ≤ α) (_htol : 0 < tol)
+    (hK : StopsAt (zterm α) tol K) :
+    0 < (∑' k : ℕ, zterm α (k + 1)) - partialSum (zterm α) K ∧
+      (∑' k : ℕ, zterm α (k + 1)) - partialSum (zterm α) K ≤ K * tol := by
+  have hKpos : (0 : ℝ) < K := by exact_mod_cast hK.1
+  rw [tail_eq (summable_zterm_succ (by linarith))]
+  refine ⟨zeta_tail_pos (by linarith) K, (zeta_tail_le hα hK.1).trans ?_⟩
+  exact mul_le_mul_of_nonneg_left hK.2.1.le hKpos.le
+
+/-- the strict version: the truncation error is `< K * tol` -/
+theorem zeta_tail_bound_lt {α tol : ℝ} {K : ℕ} (hα : 2 ≤ α) (hK : StopsAt (zterm α) tol K) :
+    (∑' k : ℕ, zterm α (k + 1)) - partialSum (zterm α) K < K * tol := by
+  have hKpos : (0 : ℝ) < K := by exact_mod_cast hK.1
+  rw [tail_eq (summable_zterm_succ (by linarith))]
+  exact lt_of_le_of_lt (zeta_tail_le hα hK.1) (mul_lt_mul_of_pos_left hK.2.1 hKpos)
+
+theorem zeta_partialSum_ge_one {α : ℝ} {K : ℕ} (hK : 1 ≤ K) : 1 ≤ partialSum (zterm α) K := by
+  have := partialSum_ge_first (zterm_nonneg α) hK
+  rwa [zterm_one] at this
+
+/-! ## 5. `power_law(alpha)` is the zeta law up to a relative error `K * tol` -/
+
+/-- `pow(k, -alpha)` is the loop's `k`-th term -/
+theorem powerLaw_numerator (α : ℝ) (k : ℕ) : (k : ℝ) ^ (-α) = zterm α k := by
+  unfold zterm
+  rw [Real.rpow_neg (Nat.cast_nonneg k), one_div]
+
+theorem powerLaw_nonneg (α : ℝ) (K k : ℕ) : 0 ≤ zterm α k / partialSum (zterm α) K := by
+  refine div_nonneg (zterm_nonneg α k) ?_
+  unfold partialSum
+  exact Finset.sum_nonneg (fun i _ => zterm_nonneg α i)
+
+theorem powerLaw_close {α tol : ℝ} {K : ℕ} (hα : 2 ≤ α) (htol : 0 < tol)
+    (hK : StopsAt (zterm α) tol K) (k : ℕ) :
+    zterm α k / (∑' i : ℕ, zterm α (i + 1)) ≤ zterm α k / partialSum (zterm α) K ∧
+      zterm α k / partialSum (zterm α) K - zterm α k / (∑' i : ℕ, zterm α (i + 1))
+        ≤ (K * tol) * (zterm α k / (∑' i : ℕ, zterm α (i + 1))) := by
+  obtain ⟨h1, h2⟩ := zeta_tail_bound hα htol hK
+  have := close_of_bounds (zterm_nonneg α k) one_pos (zeta_partialSum_ge_one hK.1)
+    (by linarith) h2
+  simpa only [div_one] using this
+
+theorem powerLaw_sum {α tol : ℝ} {K : ℕ} (hα : 2 ≤ α) (htol : 0 < tol)
+    (hK : StopsAt (zterm α) tol K) :
+    1 ≤ ∑' k : ℕ, zterm α (k + 1) / partialSum (zterm α) K ∧
+      ∑' k : ℕ, zterm α (k + 1) / partialSum (zterm α) K ≤ 1 + K * tol := by
+  obtain ⟨h1, h2⟩ := zeta_tail_bound hα htol hK
+  rw [tsum_div_const]
+  have := ratio_bounds one_pos (zeta_partialSum_ge_one hK.1) (by linarith) h2
+  simpa only [div_one] using this
+
+/-- the code's values are summable (so `powerLaw_sum` is about a genuine sum) -/
+theorem powerLaw_summable {α : ℝ} (hα : 2 ≤ α) (K : ℕ) :
+    Summable (fun k : ℕ => zterm α (k + 1) / partialSum (zterm α) K) :=
+  (summable_zterm_succ (by linarith)).div_const _
+
+/-! ## 6. truncation error of the polylogarithm loop; `scale_free_cut_off` -/
+
+theorem polylog_tail_bound {α z tol : ℝ} {K : ℕ} (hα : 0 ≤ α) (hz0 : 0 < z) (hz1 : z < 1)
+    (hK : StopsAt (lterm α z) tol K) :
+    0 < (∑' k : ℕ, lterm α z (k + 1)) - partialSum (lterm α z) K ∧
+      (∑' k : ℕ, lterm α z (k + 1)) - partialSum (lterm α z) K ≤ tol * z / (1 - z) := by
+  rw [tail_eq (summable_lterm_succ hα hz0.le hz1)]
+  refine ⟨polylog_tail_pos hα hz0 hz1 K, (polylog_tail_le hα hz0.le hz1 hK.1).trans ?_⟩
+  have h1z : 0 < 1 - z := by linarith
+  rw [mul_div_assoc]
+  exact mul_le_mul_of_nonneg_right hK.2.1.le (div_nonneg hz0.le h1z.le)
+
+theorem polylog_partialSum_ge {α z : ℝ} {K : ℕ} (hz0 : 0 ≤ z) (hK : 1 ≤ K) :
+    z ≤ partialSum (lterm α z) K := by
+  have := partialSum_ge_first (lterm_nonneg α hz0) hK
+  rwa [lterm_one] at this
+
+/-- `pow(k, -alpha) * exp(-k / kappa)` is the loop's `k`-th term at `z = exp(-1/kappa)` -/
+theorem cutoff_numerator (α κ : ℝ) (k : ℕ) :
+    (k : ℝ) ^ (-α) * Real.exp (-(k : ℝ) / κ) = lterm α (Real.exp (-1 / κ)) k := by
+  unfold lterm
+  rw [Real.rpow_neg (Nat.cast_nonneg k), ← Real.exp_nat_mul, div_eq_mul_inv, mul_comm]
+  congr 2
+  ring
+
+theorem cutoff_z_range {κ : ℝ} (hκ : 0 < κ) : 0 < Real.exp (-1 / κ) ∧ Real.exp (-1 / κ) < 1 :=
+  ⟨Real.exp_pos _, Real.exp_lt_one_iff.2 (by rw [neg_div]; exact neg_neg_of_pos (by positivity))⟩
+
+theorem cutoff_nonneg (α : ℝ) {z : ℝ} (hz0 : 0 ≤ z) (K k : ℕ) :
+    0 ≤ lterm α z k / partialSum (lterm α z) K := by
+  refine div_nonneg (lterm_nonneg α hz0 k) ?_
+  unfold partialSum
+  exact Finset.sum_nonneg (fun i _ => lterm_nonneg α hz0 i)
+
+theorem cutoff_close {α z tol : ℝ} {K : ℕ} (hα : 0 ≤ α) (hz0 : 0 < z) (hz1 : z < 1)
+    (hK : StopsAt (lterm α z) tol K) (k : ℕ) :
+    lterm α z k / (∑' i : ℕ, lterm α z (i + 1)) ≤ lterm α z k / partialSum (lterm α z) K ∧
+      lterm α z k / partialSum (lterm α z) K - lterm α z k / (∑' i : ℕ, lterm α z (i + 1))
+        ≤ (tol / (1 - z)) * (lterm α z k / (∑' i : ℕ, lterm α z (i + 1))) := by
+  obtain ⟨h1, h2⟩ := polylog_tail_bound hα hz0 hz1 hK
+  have := close_of_bounds (lterm_nonneg α hz0.le k) hz0 (polylog_partialSum_ge hz0.le hK.1)
+    (by linarith) h2
+  have e : tol * z / (1 - z) / z = tol / (1 - z) := by field_simp
+  rwa [e] at this
+
+theorem cutoff_sum {α z tol : ℝ} {K : ℕ} (hα : 0 ≤ α) (hz0 : 0 < z) (hz1 : z < 1)
+    (hK : StopsAt (lterm α z) tol K) :
+    1 ≤ ∑' k : ℕ, lterm α z (k + 1) / partialSum (lterm α z) K ∧
+      ∑' k : ℕ, lterm α z (k + 1) / partialSum (lterm α z) K ≤ 1 + tol / (1 - z) := by
+  obtain ⟨h1, h2⟩ := polylog_tail_bound hα hz0 hz1 hK
+  rw [tsum_div_const]
+  have := ratio_bounds hz0 (polylog_partialSum_ge hz0.le hK.1) (by linarith) h2
+  have e : tol * z / (1 - z) / z = tol / (1 - z) := by field_simp
+  rwa [e] at this
+
+theorem cutoff_summable {α z : ℝ} (hα : 0 ≤ α) (hz0 : 0 ≤ z) (hz1 : z < 1) (K : ℕ) :
+    Summable (fun k : ℕ => lterm α z (k + 1) / partialSum (lterm α z) K) :=
+  (summable_lterm_succ hα hz0 hz1).div_const _
+
+/-! ## 7. the executable loops of `Model/Distributions.lean` -/
+
+theorem zetaLoop_spec {s : ℕ} {tol l : ℚ} {fuel K : ℕ} (h : zetaTrunc s tol fuel = some (l, K)) :
+    StopsAt (fun k => zterm (s : ℝ) k) (tol : ℝ) K ∧ (l : ℝ) = partialSum (zterm (s : ℝ)) K :=
+  zetaLoop_inv s tol fuel 1 0 l K le_rfl (fun j h1 h2 => absurd h2 (by omega))
+    (by simp [partialSum_zero]) h
+
+theorem polylogLoop_spec {s : ℕ} {z tol l : ℚ} {fuel K : ℕ} (hz : 0 ≤ z)
+    (h : polylogTrunc s z tol fuel = some (l, K)) :
+    StopsAt (fun k => lterm (s : ℝ) (z : ℝ) k) (tol : ℝ) K ∧
+      (l : ℝ) = partialSum (lterm (s : ℝ) (z : ℝ)) K :=
+  polylogLoop_inv s z tol hz fuel 1 z 0 l K le_rfl (pow_one z).symm
+    (fun j h1 h2 => absurd h2 (by omega)) (by simp [partialSum_zero]) h
+
+/-- with enough fuel the executable zeta loop does return (it is not just vacuously specified) -/
+example : zetaTrunc 2 (1 / 10) 10 = some (205 / 144, 4) := by decide +kernel
+
+/-! ## examples: the hypotheses are satisfiable -/
+
+example : StopsAt (zterm 2) (1 / 10) 4 := by
+  have h := (zetaLoop_spec (s := 2) (tol := 1 / 10) (l := 205 / 144) (fuel := 10) (K := 4)
+    (by decide +kernel)).1
+  simpa using h
+
+example : (0 : ℝ) < (∑' k : ℕ, zterm 2 (k + 1)) - partialSum (zterm 2) 4 ∧
+    (∑' k : ℕ, zterm 2 (k + 1)) - partialSum (zterm 2) 4 ≤ 4 * (1 / 10) := by
+  have hs : StopsAt (zterm 2) (1 / 10) 4 := by
+    have h := (zetaLoop_spec (s := 2) (tol := 1 / 10) (l := 205 / 144) (fuel := 10) (K := 4)
+      (by decide +kernel)).1
+    simpa using h
+  have := zeta_tail_bound (le_refl 2) (by norm_num) hs
+  simpa using this
+
+example : ∃ K, StopsAt (lterm 2 (Real.exp (-1 / 5))) (1 / 1000000) K :=
+  polylog_loop_terminates (by norm_num) (cutoff_z_range (by norm_num)).1.le
+    (cutoff_z_range (by norm_num)).2 (by norm_num)
+
 end Gcmpy.Distributions
